@@ -19,7 +19,7 @@ SRCS = [{"fmt": "mol2", "file": f} for f in ("dummy_mol2", "dmf_mol2", "pentane_
         {"name": "a", "charge": 0, "mult": 1, "attrib": {}, "atoms": [{"el": e, "iso": None, "label": None, "atype": 1, "stereo": 0, "geom": 0, "fc": 0, "fs": 0, "attrib": {}} for e in els],
          "coords": [[0.1 * i, 1.0 + i, -0.5 * i] for i in range(len(els))], "charges": [0.01 * i for i in range(len(els))],
          "bonds": [{"a": i, "b": i + 1, "label": None, "btype": 1, "stereo": 0, "f_order": 1.0, "attrib": {}} for i in range(nb)]}
-        for els, nb in (((6, 8, 1), 2), ((7,), 0), ((6, 6, 6, 1, 1), 3))]}
+        for els, nb in (((6, 8, 1), 2), ((7,), 0), ((6, 17, 35, 14, 11, 1), 3))]}
     for fmt in ("mol2", "xyz")
 ]
 _cache = {}
@@ -38,7 +38,7 @@ def TestOneInput(data):
     damaged = text
     faults = []
     for _ in range(nf):
-        k = fdp.ConsumeIntInRange(0, 5)
+        k = fdp.ConsumeIntInRange(0, 6)
         if k == 0:
             cut = fdp.ConsumeIntInRange(1, max(1, len(damaged) - 1))
             if c10._numeric_tail_cut(damaged, cut) or any(f[0] != "cut" for f in faults):
@@ -47,7 +47,7 @@ def TestOneInput(data):
             damaged = damaged[:cut]
             continue
         fault = [["del", [fdp.ConsumeIntInRange(0, 4000)]], ["dup", [fdp.ConsumeIntInRange(0, 4000)]], ["tok_bad", fdp.ConsumeIntInRange(0, 4000), fdp.ConsumeIntInRange(0, 9)],
-                 ["tok_del", fdp.ConsumeIntInRange(0, 4000), 0], ["tok_ins", fdp.ConsumeIntInRange(0, 4000), 0]][k - 1]
+                 ["tok_del", fdp.ConsumeIntInRange(0, 4000), 0], ["tok_ins", fdp.ConsumeIntInRange(0, 4000), 0], ["renumber", fdp.ConsumeIntInRange(0, 4000), fdp.ConsumeIntInRange(0, 1)]][k - 1]
         if any(f[0] != fault[0] for f in faults):
             # faults of different kinds can cancel into a SUBSTITUTION (delete one record line + duplicate another, cut the last line +
             # duplicate another, delete a token + insert one: every count is kept and the file is well-formed with other content):
